@@ -138,6 +138,7 @@ impl Prop for NoAlloc {
                 let mut lines_now: Vec<usize> = Vec::with_capacity(4096);
                 let mut max_recs = 0usize;
                 let mut max_total_lines = 0usize;
+                let mut earlier_batches: Vec<(usize, usize)> = Vec::with_capacity(4096);
                 let mut set_cap: Option<usize> = None;
                 let mut i = 0usize;
                 let mut call = 0usize;
@@ -184,9 +185,14 @@ impl Prop for NoAlloc {
                         // dominated = the batch is no larger than earlier batches in every respect an implementation may
                         // key its reusable storage on: number of records, lines per slot (one vector per record, as the
                         // pinned code does) and total number of lines (one flat vector per set)
+                        // (for a flat layout the storage needed is some increasing function of (records, lines): the batch
+                        // must be dominated in BOTH by one single earlier batch, not by two different ones)
                         let total_lines: usize = lines_now.iter().sum();
-                        let mut dominated = k <= max_recs && total_lines <= max_total_lines;
+                        let mut dominated = k <= max_recs && total_lines <= max_total_lines && earlier_batches.iter().any(|&(kb, lb)| k <= kb && total_lines <= lb);
                         max_total_lines = max_total_lines.max(total_lines);
+                        if !earlier_batches.iter().any(|&(kb, lb)| k <= kb && total_lines <= lb) && earlier_batches.len() < 4096 {
+                            earlier_batches.push((k, total_lines));
+                        }
                         for (j, n) in lines_now.iter().enumerate() {
                             if j >= slot_max.len() {
                                 slot_max.push(0);
@@ -479,7 +485,7 @@ impl Prop for TwoReaders {
     }
 }
 
-pub const RULE: &str = "cases = (format, 100..1500 records of uniform or mildly varying shape - in 1 of 3 cases 40..900 records of 200..3000 bases (FASTA line width 1..100, i.e. up to 3000 lines per record) and / or tiny records between the others -, LF/CRLF, capacity = (largest extent + 1) x factor 1..5 + slack, chunk script, mode next() / one reused RecordSet / a generated mixture of both on one reader; optionally a few seeks back to earlier records in the second half; FASTQ optionally with different terminators on sequence and quality line). Every call after a warm-up of max(8 records, 2 buffer capacities) whose observable shape is dominated by what the same reader / set already handled (lines per record, records per set, lines per slot, total lines per set) is measured with a counting global allocator (thread-local window around the call and the accessors head/seq/qual/seq_lines): it must perform 0 allocations; the record-set buffer capacity and the reader capacity (policy never asked) stay unchanged. Non-dominated calls are skipped and counted. Non-trivial = >= 20 measured dominated calls in the case. Distinct = hash(case). Sub-check two-readers-one-set: two readers with different buffer sizes over a uniform document fill 1..3 shared record sets alternately (paired files); once a set has been filled more than four times, a fill that delivers no more records than an earlier one performs no allocation and leaves the set's buffer capacity unchanged.";
+pub const RULE: &str = "cases = (format, 100..1500 records of uniform or mildly varying shape - in 1 of 3 cases 40..900 records of 200..3000 bases (FASTA line width 1..100, i.e. up to 3000 lines per record) and / or tiny records between the others -, LF/CRLF, capacity = (largest extent + 1) x factor 1..5 + slack, chunk script, mode next() / one reused RecordSet / a generated mixture of both on one reader; optionally a few seeks back to earlier records in the second half; FASTQ optionally with different terminators on sequence and quality line). Every call after a warm-up of max(8 records, 2 buffer capacities) whose observable shape is dominated by what the same reader / set already handled (lines per record, records per set, lines per slot; records per set AND total lines by one single earlier batch, total lines per set) is measured with a counting global allocator (thread-local window around the call and the accessors head/seq/qual/seq_lines): it must perform 0 allocations; the record-set buffer capacity and the reader capacity (policy never asked) stay unchanged. Non-dominated calls are skipped and counted. Non-trivial = >= 20 measured dominated calls in the case. Distinct = hash(case). Sub-check two-readers-one-set: two readers with different buffer sizes over a uniform document fill 1..3 shared record sets alternately (paired files); once a set has been filled more than four times, a fill that delivers no more records than an earlier one performs no allocation and leaves the set's buffer capacity unchanged.";
 
 pub fn run(tier: Tier) -> i32 {
     let mut run = Run::new("C18", tier, "exploration");
